@@ -1242,3 +1242,34 @@ Example code_concatMessageArray_nonvacuous :
   gen_concatMessageArray (option msg) None omsg_concat omsg_is_nil [[Some ex_m1]; [None; None]] = Err E_LEN /\
   gen_concatMessageArray (option msg) None omsg_concat omsg_is_nil [] = Panic.
 Proof. repeat split; vm_compute; reflexivity. Qed.
+
+(* "a deterministic function OF THE CHUNK SEQUENCE": the models are pure functions of the chunk list and of the
+   registry of concatenation functions, a fixed parameter.  The Go code is pictured faithfully by that only if it
+   keeps no state between calls.  The table of every use of a package-level variable by the concatenation code
+   (Model/ConcatState.v; regenerated from internal/concat.go, compose/stream_concat.go and schema/message.go on
+   every run, gen_state_effects_agree) says so: the only row that can change a variable (assignment, address
+   taken, method called on it) is the registration function writing the registry; and the one variable whose
+   value a reader hands out whole (an error value) is mutated by nothing.  A finite table: case analysis.
+   The implementation side of the same clause is the harness's concurrent oracle (harness/cmd/c14/conc.go): a
+   chunk list gives, while concatenations of other types run on other goroutines, what it gives alone. *)
+From Eino Require Import Model.ConcatState Proofs.ConcatState.
+
+Theorem code_keeps_no_state :
+  (forall f v fn e, In (f, v, fn, e) state_effects -> mutating e = true ->
+     f = "internal/concat.go"%string /\ v = "concatFuncs"%string /\
+     fn = "RegisterStreamChunkConcatFunc"%string /\ e = EWrite) /\
+  (forall f v, In (f, v) (state_leaks state_effects) ->
+     forall fn e, In (f, v, fn, e) state_effects -> mutating e = false) /\
+  state_mutations state_effects =
+    [("internal/concat.go"%string, "concatFuncs"%string, "RegisterStreamChunkConcatFunc"%string)].
+Proof. exact (conj only_registration_mutates (conj leaked_never_mutated state_mutations_closed_form)). Qed.
+Print Assumptions code_keeps_no_state.
+
+Example code_keeps_no_state_nonvacuous :
+  In ("internal/concat.go"%string, "concatFuncs"%string, "RegisterStreamChunkConcatFunc"%string, EWrite) state_effects /\
+  mutating EWrite = true /\
+  In ("compose/stream_concat.go"%string, "emptyStreamConcatErr"%string) (state_leaks state_effects) /\
+  (* a memoising lookup would be a second mutating row: the first clause fails on such a table *)
+  state_mutations (("internal/concat.go"%string, "lastConcatType"%string, "GetConcatFunc"%string, EWrite) :: state_effects)
+    <> state_mutations state_effects.
+Proof. repeat split; try (vm_compute; tauto). vm_compute. discriminate. Qed.
